@@ -46,11 +46,20 @@ def block(stmts, name='block'):
                            body=list(stmts), decorator_list=[], lineno=getattr(stmts[0], 'lineno', 0), col_offset=0)
 
 
-def summary(fnode, name_map=None, call_alias=None, unroll=(0, 1, 2), ignore_calls=(), env=None, drop_doc=True, track_calls=()):
+def summary(fnode, name_map=None, call_alias=None, unroll=(0, 1, 2), ignore_calls=(), env=None, drop_doc=True, track_calls=(), strict_casts=False):
     paths = enumerate_paths(fnode, unroll=unroll)
     out = set()
+    # bare expression statements inside a try body with handlers are probes (`-x` raising TypeError selects the handler)
+    guarded = set()
+    for tr in ast.walk(fnode):
+        if isinstance(tr, ast.Try) and tr.handlers:
+            for st0 in tr.body:
+                for n in ast.walk(st0):
+                    if isinstance(n, ast.Expr):
+                        guarded.add(id(n))
     for p in paths:
         b = T.Builder(env=env, name_map=name_map, call_alias=call_alias)
+        b.strict_casts = strict_casts
         lits = []
         effects = []
         outcome = None
@@ -94,7 +103,9 @@ def summary(fnode, name_map=None, call_alias=None, unroll=(0, 1, 2), ignore_call
                     if v[0] == 'call' and (T.show(v[1]) in ignore_calls or T.show(v[1]) in LOGGING_CALLS or T.show(v[1]).startswith(('logging.', 'log.', 'logger.'))):
                         continue     # diagnostics are not behaviour
                     if v[0] != 'call' and not isinstance(st.value, (ast.ListComp, ast.Await, ast.Yield)):
-                        continue     # a bare expression statement (e.g. `-x` probing for TypeError) is kept only if it can raise into a handler
+                        if id(st) in guarded:
+                            effects.append(('probe', v))     # can raise into a handler: part of the behaviour
+                        continue     # otherwise a bare expression statement has no effect
                     effects.append(('do', v))
                 elif isinstance(st, (ast.Import, ast.ImportFrom, ast.Pass, ast.Global, ast.Nonlocal, ast.FunctionDef, ast.ClassDef)):
                     continue
